@@ -33,7 +33,7 @@ def run(prop, name, edits, tier='quick', expect='caught'):
                 'why': f'{rel}: pattern occurs {s.count(old)} times'}
       open(p, 'w').write(s.replace(old, new))
     t0 = time.time()
-    env = dict(os.environ, VERIF_REPLAY_DIR=root + '/replays', VSIM_STOP_ON_VIOLATION='1')
+    env = dict(os.environ, VERIF_REPLAY_DIR=root + '/replays', VSIM_STOP_ON_VIOLATION='1', VSIM_DETECT_ONLY=os.environ.get('MUTANT_DETECT_ONLY', '1'))
     r = subprocess.run([os.path.join(VERIF, 'check'), prop, '--tier', tier, '--repo-root', root,
                         '--no-evidence'], capture_output=True, text=True, timeout=3600, env=env)
     lines = [l for l in r.stdout.splitlines() if l.startswith(('VIOLATION', '  violation', 'HARNESS'))]
